@@ -6,11 +6,13 @@ import (
 	stded "crypto/ed25519"
 	"crypto/elliptic"
 	cryptorand "crypto/rand"
+	"crypto/rsa"
 	"encoding/json"
 	"fmt"
 	"math/big"
 	"os"
 	"os/exec"
+	"runtime/debug"
 	"strings"
 	"sync"
 
@@ -209,8 +211,10 @@ func buildConc(seed int64, kind string, prog [][]string) [][]concOp {
 				ops[g] = append(ops[g], op)
 			}
 		}
-	case "t2issuer":
-		iss := type2.NewBasicPublicIssuer(rsaKey(0))
+	case "t2issuer", "t2raw":
+		// "raw": the issuer's key was assembled from its components (as after an import from JWK) and carries no
+		// precomputed CRT values - whatever the library derives from it, it derives during the first concurrent calls
+		iss := type2.NewBasicPublicIssuer(rawRSA(rsaKey(0), kind == "t2raw"))
 		issB := type2.NewBasicPublicIssuer(rsaKey(1))
 		concPrelude = append(concPrelude, func() {
 			bad := &type2.BasicPublicTokenRequest{TokenKeyID: iss.TokenKeyID()[31], BlindedReq: bytes.Repeat([]byte{0xff}, 256)}
@@ -256,8 +260,8 @@ func buildConc(seed int64, kind string, prog [][]string) [][]concOp {
 				ops[g] = append(ops[g], op)
 			}
 		}
-	case "t3issuer":
-		w := newT3World(rsaKey(1), seed, map[string]string{"origin.example": "a"})
+	case "t3issuer", "t3raw":
+		w := newT3World(rawRSA(rsaKey(1), kind == "t3raw"), seed, map[string]string{"origin.example": "a"})
 		concPrelude = append(concPrelude, func() {
 			w.issuer.Evaluate([]byte{0, 3, 1, 2, 3})
 			st, err := type3.NewRateLimitedClientFromSecret(p384Scalar(seed, "conc-client")).CreateTokenRequest([]byte("c"), make([]byte, 32),
@@ -467,6 +471,18 @@ func buildConc(seed int64, kind string, prog [][]string) [][]concOp {
 	return ops
 }
 
+// rawRSA returns the key itself, or (raw) a fresh key object with the same components and nothing precomputed
+func rawRSA(k *rsa.PrivateKey, raw bool) *rsa.PrivateKey {
+	if !raw {
+		return k
+	}
+	out := &rsa.PrivateKey{PublicKey: rsa.PublicKey{N: new(big.Int).Set(k.N), E: k.E}, D: new(big.Int).Set(k.D)}
+	for _, p := range k.Primes {
+		out.Primes = append(out.Primes, new(big.Int).Set(p))
+	}
+	return out
+}
+
 func execConcurrency(c *ctx, in ev) []ev {
 	kind := gS(in, "kind")
 	var prog [][]string
@@ -519,6 +535,8 @@ func execConcurrency(c *ctx, in ev) []ev {
 				}
 			}
 			got := make([][][]byte, len(ops))
+			var gpMu sync.Mutex
+			gp := ""
 			start := make(chan struct{})
 			var wg sync.WaitGroup
 			for g := range ops {
@@ -527,6 +545,15 @@ func execConcurrency(c *ctx, in ev) []ev {
 				wg.Add(1)
 				go func() {
 					defer wg.Done()
+					defer func() { // a panic in a concurrent call is a result of the program, not the end of the driver
+						if r := recover(); r != nil {
+							gpMu.Lock()
+							if gp == "" {
+								gp = fmt.Sprintf("goroutine %d: %v\n%.1200s", g, r, debug.Stack())
+							}
+							gpMu.Unlock()
+						}
+					}()
 					<-start
 					for i, op := range ops[g] {
 						got[g][i] = op.run()
@@ -535,6 +562,9 @@ func execConcurrency(c *ctx, in ev) []ev {
 			}
 			close(start)
 			wg.Wait()
+			if gp != "" {
+				panic(gp)
+			}
 			if first {
 				reference() // only now: the concurrent calls above were the first use of the package in this process
 			}
